@@ -6,6 +6,7 @@ package godi
 import (
 	"context"
 	"errors"
+	"sync/atomic"
 	"testing"
 )
 
@@ -39,5 +40,153 @@ func TestReplay_OptionalFieldSwallowsConstructionFailure(t *testing.T) {
 		t.Errorf("REPLAY-CONFIRMED ParamObjectBuilder.BuildParamObject#post[swallowed_failures_are_only_not_found]: the registered optional dependency failed to construct (%v) and the consumer was built anyway with a nil field (dep=%v, err=nil)", boom, w.dep)
 	} else if !errors.Is(err, boom) {
 		t.Errorf("REPLAY-CONFIRMED ParamObjectBuilder.BuildParamObject#post[swallowed_failures_are_only_not_found]: failure reported without its cause: %v", err)
+	}
+}
+
+// ---- open findings without an obligation of their own: one concrete input each (index.json: kind "bounded", one entry per test) ----
+
+type ofIface interface{ Hello() }
+type ofDB struct{ closes int32 }
+
+func (d *ofDB) Close() error { atomic.AddInt32(&d.closes, 1); return nil }
+func (*ofDB) Hello()         {}
+
+// C10: one object returned under two outputs of one constructor (its concrete type and an interface) is tracked once per output
+// and closed twice.
+func TestOpen_SameObjectUnderTwoOutputsIsClosedTwice(t *testing.T) {
+	db := &ofDB{}
+	c := NewCollection()
+	if err := c.AddScoped(func() (*ofDB, ofIface) { return db, db }); err != nil {
+		t.Fatal(err)
+	}
+	p, err := c.Build()
+	if err != nil {
+		t.Fatal(err)
+	}
+	sc, _ := p.CreateScope(context.Background())
+	if _, err := Resolve[*ofDB](sc); err != nil {
+		t.Fatal(err)
+	}
+	sc.Close()
+	p.Close()
+	if n := atomic.LoadInt32(&db.closes); n != 1 {
+		t.Errorf("REPLAY-CONFIRMED open[same_object_under_two_outputs]: the object returned as *ofDB and as ofIface by one constructor was closed %d times, want 1", n)
+	}
+}
+
+type ofCfg struct{}
+type ofStore struct{ cfg *ofCfg }
+type ofManager struct{ st *ofStore }
+
+// C06: a singleton constructor that resolves another singleton through the injected Provider (the pattern of
+// docs/features/keyed-services.md) has a dependency the graph does not know: whether Build succeeds depends on where Kahn's
+// queue, seeded from a map range, happens to place it.
+func TestOpen_BuildVerdictDependsOnIterationOrder(t *testing.T) {
+	ok, failed := 0, 0
+	for i := 0; i < 200; i++ {
+		c := NewCollection()
+		c.AddSingleton(func() *ofCfg { return &ofCfg{} })
+		c.AddSingleton(func(cfg *ofCfg) *ofStore { return &ofStore{cfg: cfg} }, Name("primary"))
+		c.AddSingleton(func(p Provider) (*ofManager, error) {
+			st, err := ResolveKeyed[*ofStore](p, "primary")
+			if err != nil {
+				return nil, err
+			}
+			return &ofManager{st: st}, nil
+		})
+		p, err := c.Build()
+		if err != nil {
+			failed++
+			continue
+		}
+		ok++
+		p.Close()
+	}
+	if ok != 0 && failed != 0 {
+		t.Errorf("REPLAY-CONFIRMED open[build_verdict_depends_on_iteration_order]: the same registrations built %d times and failed %d times out of 200", ok, failed)
+	}
+}
+
+type ofLog struct{ events []string }
+type ofTransDep struct{ log *ofLog }
+type ofSingleUser struct {
+	log *ofLog
+	dep *ofTransDep
+}
+
+func (d *ofTransDep) Close() error   { d.log.events = append(d.log.events, "transient-dep"); return nil }
+func (u *ofSingleUser) Close() error { u.log.events = append(u.log.events, "singleton-user"); return nil }
+
+// C11: a transient that a singleton received as a dependency is owned by the root scope, which provider.Close closes before the
+// singletons: the dependency is closed while the singleton holding it is still open.
+func TestOpen_TransientDependencyOfASingletonIsClosedFirst(t *testing.T) {
+	log := &ofLog{}
+	c := NewCollection()
+	c.AddTransient(func() *ofTransDep { return &ofTransDep{log: log} })
+	c.AddSingleton(func(d *ofTransDep) *ofSingleUser { return &ofSingleUser{log: log, dep: d} })
+	p, err := c.Build()
+	if err != nil {
+		t.Fatal(err)
+	}
+	if err := p.Close(); err != nil {
+		t.Fatal(err)
+	}
+	if len(log.events) != 2 || log.events[0] != "singleton-user" {
+		t.Errorf("REPLAY-CONFIRMED open[transient_dependency_of_a_singleton_closed_first]: close order %v: the dependency was closed while the singleton that received it was still open", log.events)
+	}
+}
+
+// C10: provider.Close overlapping Build (a singleton constructor that receives the Provider and closes it, e.g. through a shutdown
+// hook): the singleton under construction is appended to a list nobody drains any more and is never closed; when it is the last
+// singleton Build returns the closed provider with a nil error.
+func TestOpen_ProviderClosedDuringBuildLeaksTheSingleton(t *testing.T) {
+	var created *ofDB
+	c := NewCollection()
+	c.AddSingleton(func(p Provider) *ofDB { p.Close(); created = &ofDB{}; return created })
+	p, err := c.Build()
+	closedProvider := false
+	if err == nil {
+		if _, gerr := p.Get(scopeType); errors.Is(gerr, ErrProviderDisposed) {
+			closedProvider = true
+		}
+		p.Close()
+	}
+	if n := atomic.LoadInt32(&created.closes); n != 1 || closedProvider {
+		t.Errorf("REPLAY-CONFIRMED open[provider_closed_during_build]: the singleton whose construction overlapped Close was closed %d times (want 1); Build returned an already closed provider with a nil error: %v", n, closedProvider)
+	}
+}
+
+type ofOutA struct{ id int64 }
+type ofOutB struct{}
+type ofOutNil struct {
+	Out
+	A *ofOutA
+	B *ofOutB // left nil by the constructor
+}
+
+// C02: a scoped result object with a nil field: resolving the nil field's type runs the constructor again, overwrites the sibling
+// that is already cached, and then fails: one scope ends up with two instances of the sibling.
+func TestOpen_ScopedResultObjectWithNilFieldRecreatesItsSibling(t *testing.T) {
+	var calls int64
+	c := NewCollection()
+	c.AddScoped(func() ofOutNil { return ofOutNil{A: &ofOutA{id: atomic.AddInt64(&calls, 1)}} })
+	p, err := c.Build()
+	if err != nil {
+		t.Fatal(err)
+	}
+	defer p.Close()
+	sc, _ := p.CreateScope(context.Background())
+	defer sc.Close()
+	a1, err := Resolve[*ofOutA](sc)
+	if err != nil {
+		t.Fatal(err)
+	}
+	Resolve[*ofOutB](sc)
+	a2, err := Resolve[*ofOutA](sc)
+	if err != nil {
+		t.Fatal(err)
+	}
+	if a1 != a2 {
+		t.Errorf("REPLAY-CONFIRMED open[scoped_result_object_with_nil_field]: one scope returned two instances of *ofOutA (ids %d and %d); the constructor ran %d times", a1.id, a2.id, calls)
 	}
 }
